@@ -80,7 +80,11 @@ def run(tape, ctx: Ctx) -> None:
     same_reps = tape.chance(2, 3, "same-reps?")
     reps_list = [2 if same_reps else 1 + tape.draw(3, "reps") for _ in range(n_prog)]
     fault = tape.weighted([5, 2], "fault")
-    sim = Sim(tape, ctx, max_steps=60 * n_prog + 200)
+    # a history of calls on one sampler instance: what an earlier call (and its failures) leaves behind in
+    # the sampler -- limiter slots, queues -- is what the next call starts from
+    n_rounds = 1 + tape.weighted([4, 2, 1], "extra-calls")
+    fault_round = tape.draw(n_rounds, "fault-round") if fault and n_rounds > 1 else 0
+    sim = Sim(tape, ctx, max_steps=(60 * n_prog + 200) * n_rounds)
     w = _World(sim, ctx)
     sim.add_source(w)
     q = cirq.LineQubit(0)
@@ -90,8 +94,8 @@ def run(tape, ctx: Ctx) -> None:
     if same_sweep:
         sweeps = [sweeps[0]] * n_prog
     job_counter = [0]
-    error_job = None
-    expect_jobs = None
+    error_job_box = [None]     # id of the job that fails, for the current call
+    error_offset = 0
 
     def results_for(prog_idxs, sweep, reps):
         out = []
@@ -110,7 +114,7 @@ def run(tape, ctx: Ctx) -> None:
                 w.inflight += 1
                 w.max_inflight = max(w.max_inflight, w.inflight)
                 fut = duet.AwaitableFuture()
-                w.pending[jid] = (fut, InjectedJobError(f"job {jid}") if jid == error_job else None)
+                w.pending[jid] = (fut, InjectedJobError(f"job {jid}") if jid == error_job_box[0] else None)
                 try:
                     await fut
                 finally:
@@ -120,10 +124,10 @@ def run(tape, ctx: Ctx) -> None:
         sampler = FakeSampler()
         limit = None
         if fault:
-            error_job = tape.draw(n_prog, "error-job")
+            error_offset = tape.draw(n_prog, "error-job")
             ctx.fault_configured("job-error")
         call = lambda: sampler.run_batch(programs, params_list=sweeps, repetitions=reps_list)  # noqa: E731
-        ctx.decide("cfg", "base", n_prog, sweep_lens, reps_list, error_job)
+        ctx.decide("cfg", "base", n_prog, sweep_lens, reps_list, error_offset, n_rounds, fault_round)
     else:
         import cirq_google as cg
 
@@ -136,7 +140,7 @@ def run(tape, ctx: Ctx) -> None:
 
             async def results_async(self):
                 fut = duet.AwaitableFuture()
-                w.pending[self.jid] = (fut, InjectedJobError(f"job {self.jid}") if self.jid == error_job else None)
+                w.pending[self.jid] = (fut, InjectedJobError(f"job {self.jid}") if self.jid == error_job_box[0] else None)
                 try:
                     await fut
                 finally:
@@ -166,18 +170,47 @@ def run(tape, ctx: Ctx) -> None:
                                       jobs_per_batch=jobs_per_batch)
         limit = max_conc
         if fault:
-            error_job = tape.draw(n_prog, "error-job")    # may exceed the number of jobs when batching: then no fault fires
+            error_offset = tape.draw(n_prog, "error-job")    # may exceed the number of jobs when batching: then no fault fires
             ctx.fault_configured("job-error")
         as_mapping = jobs_per_batch > 1 and tape.chance(1, 3, "mapping?")
         progs_arg = {f"name{i}": p for i, p in enumerate(programs)} if as_mapping else programs
         call = lambda: sampler.run_batch(progs_arg, params_list=sweeps, repetitions=reps_list)  # noqa: E731
-        ctx.decide("cfg", "processor", n_prog, sweep_lens, reps_list, max_conc, jobs_per_batch, error_job, as_mapping)
+        ctx.decide("cfg", "processor", n_prog, sweep_lens, reps_list, max_conc, jobs_per_batch, error_offset, as_mapping,
+                   n_rounds, fault_round)
 
     def on_quiescent():
         if w.failure is not None:
             raise w.failure
 
     sim.on_quiescent = on_quiescent
+    any_raised = False
+    for rnd in range(n_rounds):
+        if rnd:
+            ctx.probe("w2:repeated-call-on-one-sampler")
+            if any_raised:
+                ctx.probe("w2:call-after-failed-call")
+        # job ids are global; the injected failure belongs to one round
+        base_job = job_counter[0]
+        error_job = (base_job + error_offset) if (fault and rnd == fault_round) else None
+        error_job_box[0] = error_job
+        w.pending.clear()
+        w.inflight = 0
+        w.errors_fired = []
+        raised = _one_call(sim, w, ctx, call, n_prog, sweep_lens, reps_list, rnd)
+        any_raised = any_raised or raised is not None
+    if w.completion_order != sorted(w.completion_order):
+        ctx.probe("w2:out-of-order-completion")
+    if limit is not None and w.max_inflight == limit and job_counter[0] > limit:
+        ctx.probe("w2:limiter-saturated")
+    ctx.state(("w2", variant, min(w.max_inflight, 5), any_raised, n_rounds))
+    ctx.nontrivial = job_counter[0] >= 2
+    ctx.sample = {"workload": "W2", "variant": "ProcessorSampler" if variant else "Sampler.run_batch",
+                  "programs": n_prog, "sweep_lens": sweep_lens, "repetitions": reps_list, "calls": n_rounds,
+                  "jobs_started": [list(x) if isinstance(x, tuple) else x for x in w.start_order],
+                  "completion_order": w.completion_order, "raised": any_raised}
+
+
+def _one_call(sim, w, ctx, call, n_prog, sweep_lens, reps_list, rnd):
     raised = None
     result = None
     with simduet.installed(sim):
@@ -186,8 +219,8 @@ def run(tape, ctx: Ctx) -> None:
         except Violation:
             raise
         except SimHang as e:
-            raise Violation(f"{P}-HANG", f"run_batch never returns: {e}; started={w.start_order} "
-                                         f"completed={w.completion_order}")
+            raise Violation(f"{P}-HANG", f"run_batch (call {rnd + 1} on this sampler) never returns: {e}; "
+                                         f"started={w.start_order} completed={w.completion_order}")
         except StepCapExceeded as e:
             raise Violation(f"{P}-HANG", f"run_batch did not finish within {sim.max_steps} events ({e})")
         except InjectedJobError as e:
@@ -222,13 +255,4 @@ def run(tape, ctx: Ctx) -> None:
                                     f"result[{i}][{j}] is not the result of program {i}, sweep point {j}: keys "
                                     f"{sorted(r.measurements)} params {r.params} (completion order "
                                     f"{w.completion_order})")
-    if w.completion_order != sorted(w.completion_order):
-        ctx.probe("w2:out-of-order-completion")
-    if limit is not None and w.max_inflight == limit and job_counter[0] > limit:
-        ctx.probe("w2:limiter-saturated")
-    ctx.state(("w2", variant, min(w.max_inflight, 5), raised is not None))
-    ctx.nontrivial = job_counter[0] >= 2
-    ctx.sample = {"workload": "W2", "variant": "ProcessorSampler" if variant else "Sampler.run_batch",
-                  "programs": n_prog, "sweep_lens": sweep_lens, "repetitions": reps_list,
-                  "jobs_started": [list(x) if isinstance(x, tuple) else x for x in w.start_order],
-                  "completion_order": w.completion_order, "raised": type(raised).__name__ if raised else None}
+    return raised
